@@ -138,7 +138,9 @@ class Block:
         new_circuit = Circuit()
 
         for _input in self.inputs:
-            new_circuit._emplace_gate(label=_input, gate_type=gate.INPUT)
+            # one outside gate may feed several inputs of the block.
+            if not new_circuit.has_gate(_input):
+                new_circuit._emplace_gate(label=_input, gate_type=gate.INPUT)
 
         for gate_label in self.gates:
             cur_gate: gate.Gate = self._owner.get_gate(gate_label)
